@@ -227,7 +227,7 @@ class C17(Prop):
         except ProjRuntimeError:
             out['escaped'] = 'ProjRuntimeError'
             out['result'] = None
-        except impl.ImplBudget:
+        except (impl.ImplBudget, impl.ImplWork):
             out['escaped'] = 'work-budget'
             out['result'] = None
         finally:
